@@ -32,7 +32,7 @@ Create HintDb genregs.
 #[global] Hint Resolve len_map2 F_add F_sub F_mul F_max F_min wk8 wk16 wk32 wk64 : genregs.
 #[global] Hint Extern 1 (0 < _) => lia : genregs.
 #[global] Hint Extern 1 (Nat.even _ = true) => reflexivity : genregs.
-#[global] Hint Extern 1 (@eq nat _ _) => (reflexivity || congruence) : genregs.
+#[global] Hint Extern 4 (@eq nat ?a ?b) => (tryif first [has_evar a | has_evar b] then fail else first [reflexivity | lia]) : genregs.
 
 Ltac side := solve [ eauto 10 with genregs ].
 
@@ -124,14 +124,14 @@ Proof.
 Qed.
 
 (* 64-bit max / min by compare and blend (any register length) *)
-Lemma P_max64_s x y : length x = length y -> Forall (in_range 64) x -> Forall (in_range 64) y ->
+Lemma P_max64_s n x y : length x = n -> length y = n -> Forall (in_range 64) x -> Forall (in_range 64) y ->
   vblendv_epi8 (bytes_of 64 y) (bytes_of 64 x) (vcmpgt 64 (bytes_of 64 x) (bytes_of 64 y))
   = bytes_of 64 (map2 (i_max true 64) x y).
-Proof. intros Hl Fx Fy. rewrite <- (max64_spec true x y Fx Fy). apply max64_sequence_s; assumption. Qed.
-Lemma P_min64_s x y : length x = length y -> Forall (in_range 64) x -> Forall (in_range 64) y ->
+Proof. intros Lx Ly Fx Fy. rewrite <- (max64_spec true x y Fx Fy). apply max64_sequence_s; try assumption; lia. Qed.
+Lemma P_min64_s n x y : length x = n -> length y = n -> Forall (in_range 64) x -> Forall (in_range 64) y ->
   vblendv_epi8 (bytes_of 64 x) (bytes_of 64 y) (vcmpgt 64 (bytes_of 64 x) (bytes_of 64 y))
   = bytes_of 64 (map2 (i_min true 64) x y).
-Proof. intros Hl Fx Fy. rewrite <- (min64_spec true x y Fx Fy). apply min64_sequence_s; assumption. Qed.
+Proof. intros Lx Ly Fx Fy. rewrite <- (min64_spec true x y Fx Fy). apply min64_sequence_s; try assumption; lia. Qed.
 Lemma P_max64_u n x y : length x = n -> length y = n -> Forall (in_range 64) x -> Forall (in_range 64) y ->
   vblendv_epi8 (bytes_of 64 y) (bytes_of 64 x)
                (vcmpgt 64 (vxor (bytes_of 64 x) (vset1 64 n 9223372036854775808))
@@ -202,16 +202,16 @@ Ltac unfold_all :=
   unfold_gen_hook; cbv beta iota delta [da db dc dd de df dg dh dmap dl];
   cbn [map]; eval_consts.
 
-(* integer LHS: push [bytes_of] outwards *)
-Ltac enc_step :=
+(* integer LHS: push [bytes_of] outwards; n = the lane count of the register *)
+Ltac enc_step n :=
   first
     [ rewrite P_mul8_avx2 by side
     | rewrite P_mul8_avx512 by side
     | rewrite P_mul64_avx2 by side
-    | rewrite P_max64_s by side
-    | rewrite P_min64_s by side
-    | erewrite P_max64_u by side
-    | erewrite P_min64_u by side
+    | rewrite (P_max64_s n) by side
+    | rewrite (P_min64_s n) by side
+    | rewrite (P_max64_u n) by side
+    | rewrite (P_min64_u n) by side
     | erewrite E_add by side
     | erewrite E_sub by side
     | erewrite E_mullo by side
@@ -220,26 +220,31 @@ Ltac enc_step :=
     | erewrite E_min_s by side
     | erewrite E_min_u by side ].
 
-Ltac enc_norm := repeat enc_step.
+Ltac enc_norm n := repeat (enc_step n).
 
 Ltac dec_norm :=
   repeat first [ erewrite E_dec by side | erewrite E_set1 by (first [side | assumption]) ].
 
 (* the model side, through the C13 facts about the model *)
-Ltac model_step IL IE :=
+Ltac sideR R := solve [ norm_lanes R; eauto 10 with genregs ].
+
+Ltac model_step R IL IE :=
   first
     [ rewrite (il_fmadd _ _ IL)
-    | rewrite (il_add_dense _ _ IL) | rewrite (il_sub_dense _ _ IL) | rewrite (il_fmadd_dense _ _ IL)
-    | rewrite (ie_mul_dense _ _ _ IE) | rewrite (ie_max_dense _ _ _ IE) | rewrite (ie_min_dense _ _ _ IE)
     | rewrite (il_zero _ _ IL) | rewrite (ie_filled _ _ _ IE)
-    | rewrite (il_add _ _ IL) by side | rewrite (il_sub _ _ IL) by side | rewrite (il_mul _ _ IL) by side
-    | rewrite (ie_max _ _ _ IE) by side | rewrite (ie_min _ _ _ IE) by side ].
+    | (* innermost first: an instance whose arguments are not yet in scalar form is skipped by backtracking *)
+      match goal with
+      | |- context [r_add R ?x ?y] => rewrite (il_add _ _ IL x y) by sideR R
+      | |- context [r_sub R ?x ?y] => rewrite (il_sub _ _ IL x y) by sideR R
+      | |- context [r_mul R ?x ?y] => rewrite (il_mul _ _ IL x y) by sideR R
+      | |- context [r_max R ?x ?y] => rewrite (ie_max _ _ _ IE x y) by sideR R
+      | |- context [r_min R ?x ?y] => rewrite (ie_min _ _ _ IE x y) by sideR R
+      end ].
 
-Ltac model_norm IL IE :=
-  unfold sum_to_register, max_to_register, min_to_register, rollup, nth_reg, filled_dense, zeroed_dense, dense_copy,
-         NUM_LANES, elements_per_dense;
-  cbn [nth repeat];
-  repeat (first [ model_step IL IE | progress cbn [apply_dense2 map2] ]).
+Ltac model_norm R IL IE :=
+  unfold sum_to_register, max_to_register, min_to_register, rollup, nth_reg;
+  cbn [nth];
+  repeat (model_step R IL IE).
 
 (* no universally quantified register / scalar was introduced *)
 Ltac closed_goal :=
@@ -248,6 +253,19 @@ Ltac closed_goal :=
   | _ : length _ = _ |- _ => fail
   | _ => idtac
   end.
+
+Lemma list8_eq {A} (a1 a2 a3 a4 a5 a6 a7 a8 b1 b2 b3 b4 b5 b6 b7 b8 : A) :
+  a1 = b1 -> a2 = b2 -> a3 = b3 -> a4 = b4 -> a5 = b5 -> a6 = b6 -> a7 = b7 -> a8 = b8 ->
+  [a1; a2; a3; a4; a5; a6; a7; a8] = [b1; b2; b3; b4; b5; b6; b7; b8].
+Proof. intros; subst; reflexivity. Qed.
+
+(* dense forms: bring the model side to the list of its eight registers, then one goal per register *)
+Ltac split_dense IL IE :=
+  try (first [ rewrite (il_add_dense _ _ IL) | rewrite (il_sub_dense _ _ IL) | rewrite (il_fmadd_dense _ _ IL)
+             | rewrite (ie_mul_dense _ _ _ IE) | rewrite (ie_max_dense _ _ _ IE) | rewrite (ie_min_dense _ _ _ IE)
+             | unfold filled_dense, zeroed_dense, dense_copy, NUM_LANES; cbn [repeat] ];
+       cbn [apply_dense2 map2];
+       apply list8_eq).
 
 Ltac solve_int r t R :=
   let IL := fresh "IL" in
@@ -259,7 +277,7 @@ Ltac solve_int r t R :=
   unfold_all;
   first
     [ (* closed: constants, lane counts *) closed_goal; vm_compute; reflexivity
-    | enc_norm; dec_norm; model_norm IL IE; norm_lanes R; reflexivity
+    | split_dense IL IE; (let n := eval vm_compute in (lanes R) in enc_norm n); dec_norm; model_norm R IL IE; norm_lanes R; reflexivity
     | (* across-vector reductions of the instruction set: the model is the same fold *)
       unfold vreduce_add, vreduce_max, vreduce_min; dec_norm; cbv zeta; reflexivity ].
 
